@@ -11,6 +11,7 @@ import CfVerif.Proofs.C13Traj
 import CfVerif.Proofs.C13Led
 import CfVerif.Proofs.C13Loc
 import CfVerif.Proofs.C13QuatInt
+import CfVerif.Proofs.C13Hist
 namespace CfVerif.C13
 open CfVerif CfVerif.C13.Spec
 
@@ -62,6 +63,28 @@ theorem gen_lh_angle :
       "decoded_data['y'] = [0, 0, 0, 0]", "decoded_data['y'][0] = raw_data[5]",
       "decoded_data['y'][1] = raw_data[5] - fp16_to_float(raw_data[6])", "decoded_data['y'][2] = raw_data[5] - fp16_to_float(raw_data[7])",
       "decoded_data['y'][3] = raw_data[5] - fp16_to_float(raw_data[8])"] := by decide
+
+/-- objects used more than once: the constructors keep the raw arguments (nothing derived, in particular no lazy
+`map()` iterator), the serialisers compute from those attributes and store nothing but callbacks, `_incoming` stores nothing -/
+theorem gen_objects :
+    Gen.C13.startInitAssigns = ["self.x = x", "self.y = y", "self.z = z", "self.yaw = yaw"] ∧ Gen.C13.startInitDerived = [] ∧
+    Gen.C13.segInitAssigns = ["self.duration = duration", "self.x = element_x", "self.y = element_y", "self.z = element_z",
+      "self.yaw = element_yaw"] ∧ Gen.C13.segInitDerived = [] ∧
+    Gen.C13.startPackStores = [] ∧ Gen.C13.segPackStores = [] ∧
+    Gen.C13.trajWriteLoops = ["for element in self.trajectory: data += element.pack()"] ∧
+    Gen.C13.trajWriteCalls = ["self.mem_handler.write(self, start_addr, data, flush_queue=True)"] ∧
+    (∀ s ∈ Gen.C13.trajWriteStores, s ∈ ["self._write_finished_cb = write_finished_cb", "self._write_failed_cb = write_failed_cb"]) ∧
+    Gen.C13.ledObjInit = ["self.r = 0", "self.g = 0", "self.b = 0", "self.intensity = 100"] ∧
+    Gen.C13.ledSetStores = ["self.r = r", "self.g = g", "self.b = b", "self.intensity = intensity"] ∧
+    Gen.C13.ledSetTests = ["intensity"] ∧
+    (∀ s ∈ Gen.C13.ledWriteStores, s = "self._write_finished_cb = write_finished_cb") ∧
+    Gen.C13.ledWriteCalls = ["self.mem_handler.write(self, 0, data, flush_queue=True)"] ∧
+    (∀ s ∈ Gen.C13.ledtWriteStores, s = "self._write_finished_cb = write_finished_cb") ∧
+    Gen.C13.ledtWriteLoops = ["self.timings"] ∧
+    Gen.C13.ledtAddStores = ["self.timings.append({'time': time, 'rgb': rgb, 'leds': leds, 'fade': fade, 'rotate': rotate})"] ∧
+    Gen.C13.ledtWriteCalls = ["self.mem_handler.write(self, 0, bytearray(data), flush_queue=True)"] ∧
+    Gen.C13.incStores = [] ∧
+    Gen.C13.incCalls = ["self.receivedLocationPacket.call(pk)", "self._decode_lh_angle(data)"] := by decide
 
 /-! ## Half precision -/
 
@@ -168,6 +191,28 @@ example : packStart ⟨1, 1⟩ ⟨-2, 1⟩ ⟨32767, 1000⟩ ⟨1, 3⟩ = .ok [0
 example : packStart ⟨32768, 1000⟩ ⟨0, 1⟩ ⟨0, 1⟩ ⟨0, 1⟩ = .error .structError := by decide
 example : fitsInt16 32767 ∧ ¬ fitsInt16 32768 := by decide
 
+/-! ### every call, not only the first -/
+
+/-- `pack()` is idempotent: in any number of calls on one `CompressedStart`/`CompressedSegment` object every call returns
+what the first returns — the same bytes, or the same exception (an overflow raises every time) — and leaves the object
+as constructed.  So `start_packs_or_raises` / `element_packs_or_raises` / `coordinate_error_lt_one` hold for every call. -/
+theorem pack_idempotent (e : TrajElem) (n : Nat) : packN e n = (e, List.replicate n e.pack.2) :=
+  packN_idem e n
+
+/-- the same trajectory list uploaded any number of times (to any memories or addresses) yields the same data each time -/
+theorem upload_idempotent (els : List TrajElem) (n : Nat) : uploadN els n = (els, List.replicate n (writeTraj els).2) :=
+  uploadN_idem els n
+
+/-- and that data is the concatenation of the elements' `pack()` results, or the first exception among them -/
+theorem upload_is_concatenation (els : List TrajElem) : (writeTraj els).2 = (packAll els).map List.flatten :=
+  writeTraj_eq els
+
+example : packN (.seg ⟨⟨1, 1⟩, [⟨40, 1⟩], [], [], []⟩) 2 =
+    (.seg ⟨⟨1, 1⟩, [⟨40, 1⟩], [], [], []⟩, [.error .structError, .error .structError]) := by decide
+example : (uploadN [.start ⟨⟨1, 1⟩, ⟨0, 1⟩, ⟨0, 1⟩, ⟨0, 1⟩⟩, .seg ⟨⟨1, 2⟩, [⟨1, 2⟩], [], [], [⟨9, 1⟩]⟩] 2).2 =
+    [.ok [0xe8, 3, 0, 0, 0, 0, 0, 0, 0x41, 0xf4, 1, 0xf4, 1, 90, 0], .ok [0xe8, 3, 0, 0, 0, 0, 0, 0, 0x41, 0xf4, 1, 0xf4, 1, 90, 0]] := by
+  decide
+
 /-! ## LED ring: RGB888 → RGB565 -/
 
 /-- For 8-bit levels and an intensity of 0..100 the word sent for one LED is `r5·2048 + g6·32 + b5` with
@@ -221,7 +266,41 @@ example : ledWriteData [⟨255, 255, 255, 100⟩, ⟨0, 0, 0, 100⟩, ⟨128, 64
 example : ledBytes ⟨255, 255, 255, 1000⟩ = .error .valueError := by decide    -- intensity beyond 100: bytearray() refuses
 example : timingsWriteData [⟨5, 255, 0, 0, 3, true, 2⟩, ⟨0, 0, 0, 0, 0, false, 0⟩] = .ok [5, 0xf8, 0, 0x53, 0, 0, 0, 0] := by decide
 
+/-- One ring object over any history of colour/intensity changes and writes: a write changes nothing, so repeated writes
+send the same data, and the data of every write is `ledWriteData` of the state produced by the `set`/intensity operations
+before it alone (`led_rgb565` etc. therefore hold for every write). -/
+theorem led_write_idempotent (s : List Led) (n : Nat) :
+    ledRun s (List.replicate n LedOp.write) = List.replicate n (ledWriteData s) :=
+  ledRun_writes s n
+
+theorem led_writes_see_only_sets (s : List Led) (before after : List LedOp) :
+    ledRun s (before ++ LedOp.write :: after) =
+      ledRun s before ++ ledWriteData (ledFinal s (before.filter (· ≠ LedOp.write))) ::
+        ledRun (ledFinal s (before.filter (· ≠ LedOp.write))) after := by
+  rw [ledRun_append, ← ledFinal_ignores_writes]
+  rfl
+
+/-- the timings object: writes leave the list alone; a write after further `add`s sends the extended list -/
+theorem timing_write_idempotent (s : List Timing) (n : Nat) :
+    timingRun s (List.replicate n TimingOp.write) = List.replicate n (timingsWriteData s) :=
+  timingRun_writes s n
+
+theorem timing_write_after_adds (s adds : List Timing) (ops : List TimingOp) :
+    timingRun s (adds.map TimingOp.add ++ TimingOp.write :: ops) =
+      timingsWriteData (s ++ adds) :: timingRun (s ++ adds) ops :=
+  timingRun_append_write s adds ops
+
+example : ledRun ledInit [.set 0 255 255 255 none, .write, .set 0 255 255 255 (some 0), .write, .intensity 0 0, .write] =
+    [.ok (0xff :: 0xff :: List.replicate 22 0), .ok (0xff :: 0xff :: List.replicate 22 0), .ok (List.replicate 24 0)] := by decide
+
 /-! ## Localization stream packets -/
+
+/-- one `Localization` object, any stream of packets: what the callback receives for the i-th packet depends on that packet
+alone (so the two decoding theorems below hold for every packet of a stream) -/
+theorem incoming_memoryless (before : List (List UInt8)) (p : List UInt8) (after : List (List UInt8)) :
+    incomingAll (before ++ p :: after) = incomingAll before ++ incoming p :: incomingAll after := by
+  simp [incomingAll]
+
 
 /-- A range report decodes to exactly the reported anchor distances: the dict built by assigning each
 `(anchor id, binary32 distance)` in order — for any number of anchors. -/
